@@ -98,6 +98,9 @@ Definition trees_upto5 := trees_upto4 ++ T5.
 
 Definition order_ok (A : list (list Q)) (b : list Q) (ts : list tree) : bool := forallb (cond_holds A b) ts.
 
+(* a reactant cannot deliver more than it has (calc_final_kinetic_reaction) *)
+Definition pos0 (x : Q) : Q := if Qle_bool 0 x then x else 0.
+
 (* ------------------------------------------------------------------ the step, scalar reactant *)
 Section Scalar.
   Variable S : scheme.
@@ -147,5 +150,6 @@ End Pair.
 (* Taylor polynomial of exp(-z) of degree 5, and the coefficient of z^6 produced by a 6-stage scheme *)
 Definition taylor5 (z : Q) : Q :=
   1 - z + z*z*(1#2) - z*z*z*(1#6) + z*z*z*z*(1#24) - z*z*z*z*z*(1#120).
+Definition taylor6 (z : Q) : Q := taylor5 z + z*z*z*z*z*z*(1#720).
 Definition kappa6 (S : scheme) : Q :=
   at6 (tabB S) 5 * at6 (coefs (s6 S)) 4 * at6 (coefs (s5 S)) 3 * at6 (coefs (s4 S)) 2 * at6 (coefs (s3 S)) 1 * at6 (coefs (s2 S)) 0.
